@@ -265,7 +265,7 @@ pub fn run(env: &Env) -> i32 {
     ];
     proptest::collection::vec(piece, 0..120)
     };
-    value_stream(env, &mut st, "conversion-random", env.tier.n(5000, 100_000), mk, |pieces: &Vec<String>, s| {
+    value_stream(env, &mut st, "conversion-random", env.tier.n(20_000, 300_000), mk, |pieces: &Vec<String>, s| {
         let text: String = pieces.concat();
         let mut out = Vec::new();
         let starts = token_starts(&text);
@@ -282,7 +282,7 @@ pub fn run(env: &Env) -> i32 {
     });
     // (b) end to end
     let cfg = program::GenCfg { undecided: true, plant: 110, newline_items: false, ..Default::default() };
-    tape_stream(env, &mut st, "e2e", env.tier.n(1500, 30_000), 1200, |tape, s| e2e_case(tape, &cfg, s));
+    tape_stream(env, &mut st, "e2e", env.tier.n(3000, 30_000), 1200, |tape, s| e2e_case(tape, &cfg, s));
 
     let meta = Meta {
         rule: "(a) (text, offset) pairs: all strings of length <= 7 (quick) / 9 (thorough) over {a, LF, CR, e-acute (2 bytes), blank} with every offset at which a non-blank character starts, plus random Unicode texts with LF / CRLF / lone CR / blank runs; (b) (laid-out program, pattern) pairs for 4 fixed and 2 random layouts and all 30 patterns; non-trivial = offset or finding on the last line of a text without final newline, after a multi-byte character, after a CRLF, or a finding spanning several lines; distinct by (text, offset) resp. (text, pattern)".into(),
